@@ -122,7 +122,8 @@ def _set_generator_counter(gen, value: int):
 def run_one(params: dict, chooser, deviations=True) -> dict:
     ops = params['ops']
     ERRORS.records.clear()
-    world = World(chooser=chooser, horizon=params.get('horizon', 10.5 if 'W' in ops else 13.0), deviations=False)
+    world = World(chooser=chooser, horizon=params.get('horizon', 10.5 if 'W' in ops else 13.0), deviations=False,
+                  slowcpu=True)      # also a late loop: a due timer fires in the iteration in which a reply is processed
     violations: list[Violation] = []
     try:
         net = SimNet(world)
@@ -230,6 +231,7 @@ def run_one(params: dict, chooser, deviations=True) -> dict:
 
         # time-outs exact ---------------------------------------------------------------------------
         end = world.now()
+        late_loop = any(str(t).startswith('slowcpu') for t in world.trace)
         for info in obs.sent:
             timeout = params['rt'] if info['type'] != 'WISHLIST' else (params['wt'] if params['wt'] >= 0 else 3)
             ev = info['removed_events']
@@ -252,6 +254,11 @@ def run_one(params: dict, chooser, deviations=True) -> dict:
                     violations.append(Violation(
                         'removed-early', f"request {info['ticket']} sent {info['t_sent']} timeout {timeout} removed at {ev}",
                         signature='C18:removed-early'))
+                continue
+            if late_loop:
+                # a late loop (slowcpu) delays timer tasks legitimately: exact times are judged on the other schedules
+                if len(ev) > 1:
+                    violations.append(Violation('removed-twice', f"{info['ticket']}: {ev}", signature='C18:removed-twice'))
                 continue
             if len(ev) != 1:
                 violations.append(Violation(
